@@ -126,12 +126,18 @@ func BuildNode(n Node) any {
 		return buildSlice(n)
 	case "mp":
 		m := map[string]int{}
+		mpv := map[string]*int{} // vp: the same map with POINTER values (compared by what they point to, never by address)
 		ks, _ := n["ks"].([]any)
 		vs, _ := n["vs"].([]any)
 		for i := range ks {
 			k := Detok(anyToks(ks[i]))
 			v, _ := strconv.Atoi(Detok(anyToks(vs[i])))
 			m[k] = v
+			pv := v
+			mpv[k] = &pv
+		}
+		if nBool(n, "vp") {
+			return mpv
 		}
 		return m
 	case "mpa":
@@ -225,6 +231,9 @@ func BuildStack(n Node) stackage.Stack {
 	}
 	if nBool(n, "nn") {
 		s.SetNoNesting(true) // after the elements went in: the option concerns future pushes only
+	}
+	if nBool(n, "er") {
+		s.SetErr(errUser) // a leftover error: it says something about an earlier call, nothing about the content
 	}
 	return s
 }
